@@ -95,19 +95,19 @@ Proof.
   apply mem_path_false in Hp. rewrite Hp, (IH Nl). reflexivity.
 Qed.
 
-Lemma sem_type_of : forall gs gp e, sem_fm gs gp (FType (type_of (e_node e))) e = Some true.
-Proof. intros gs gp [r a [c|es|l]]; reflexivity. Qed.
+Lemma sem_type_of : forall O e, sem_fm O (FType (type_of (e_node e))) e = Some true.
+Proof. intros O [r a [c|es|l]]; reflexivity. Qed.
 
 (** the matcher the listing condition associates with the path of [e] holds for [e], provided no
     other listed file has that path *)
-Lemma sem_fc_cond_of : forall gs gp e L,
+Lemma sem_fc_cond_of : forall O e L,
   (forall e', In e' L -> Forall plain_component (e_rel e')) ->
   (forall e', In e' L -> e_rel e' = e_rel e -> e' = e) ->
-  sem_fc gs gp (cond_of L) (e_rel e) e = Some true.
+  sem_fc O (cond_of L) (e_rel e) e = Some true.
 Proof.
-  intros gs gp e. induction L as [|e0 L IH]; intros HP HU; [reflexivity|].
+  intros O e. induction L as [|e0 L IH]; intros HP HU; [reflexivity|].
   cbn [cond_of]. rewrite sem_fc_NameM. rewrite (posix_parts_join _ (HP e0 (or_introl eq_refl))).
-  assert (sem_fc gs gp (cond_of L) (e_rel e) e = Some true) as Hrest.
+  assert (sem_fc O (cond_of L) (e_rel e) e = Some true) as Hrest.
   { apply IH; intros e' He'; [apply HP | apply HU]; right; exact He'. }
   destruct (path_eqb (e_rel e0) (e_rel e)) eqn:E; [|exact Hrest].
   apply path_eqb_eq in E. rewrite (HU e0 (or_introl eq_refl) E). rewrite sem_type_of. cbn [and_then]. exact Hrest.
@@ -125,12 +125,12 @@ Qed.
 
 (** The round trip, declaratively: [matches -full] of the complete typed listing holds on the
     recursive contents of a link-free tree with unique, plain names. *)
-Theorem listing_matches_full : forall gs gp t abs,
+Theorem listing_matches_full : forall O t abs,
   link_free t = true -> wf_tree t -> plain_tree t ->
-  sem_fsm gs gp (SMatches true (cond_of (listing t [] abs)))
+  sem_fsm O (SMatches true (cond_of (listing t [] abs)))
           (SModel t abs (Rec None None) (fun _ => Some true) nf) = Some true.
 Proof.
-  intros gs gp t abs LF WF PT. set (L := listing t [] abs).
+  intros O t abs LF WF PT. set (L := listing t [] abs).
   assert (spec_files (SModel t abs (Rec None None) (fun _ => Some true) nf) = Some L) as ES.
   { unfold spec_files. cbn [sm_cfg sm_dir sm_abs sm_prune sm_sel]. rewrite (walk_listing t LF [] abs 0). fold L.
     clear. induction L as [|e L IH]; cbn [strict_filter]; [reflexivity | rewrite IH; reflexivity]. }
